@@ -4,7 +4,7 @@
    integer parsing), the world [w] (any module state, any ledger) and the packet. *)
 From Coq Require Import String List ZArith Bool.
 From Orbiter Require Import Lib.Res Gen.Constants Model.Env Model.Denom Model.Payload Model.State Model.Pipeline
-     Proofs.TransferProps Proofs.NoPanic Props.Examples.
+     Proofs.TransferProps Proofs.NoPanic Proofs.GasCharged Props.Examples.
 Import ListNotations.
 Open Scope string_scope.
 Open Scope Z_scope.
@@ -23,6 +23,19 @@ Theorem C01_success_clears : forall cfg e w p tape,
     forall x d', d' <> d -> bal (w_l (rr_world (recv cfg e w p tape))) x d' = bal (w_l w) x d'.
 Proof. exact success_clears. Qed.
 Print Assumptions C01_success_clears.
+
+(* the same on ANY chain, whatever its Hyperlane post-dispatch hooks charge for gas ([recv_gas g], any g): a
+   success leaves nothing of the delivered denomination on the orbiter account, and no other balance of that
+   account grows or goes below zero (the only way one shrinks is the gas payment of open finding 17) *)
+Theorem C01_success_clears_any_hooks : forall g cfg e w p tape,
+  wf_cfg cfg ->
+  rr_out (recv_gas g cfg e w p tape 0) = OAckOk ->
+  exists d,
+    bal (w_l (rr_world (recv_gas g cfg e w p tape 0))) (cfg_orbiter cfg) d = 0 /\
+    forall d', d' <> d -> 0 <= bal (w_l w) (cfg_orbiter cfg) d' ->
+      0 <= bal (w_l (rr_world (recv_gas g cfg e w p tape 0))) (cfg_orbiter cfg) d' <= bal (w_l w) (cfg_orbiter cfg) d'.
+Proof. exact success_clears_hooks. Qed.
+Print Assumptions C01_success_clears_any_hooks.
 
 (* the dichotomy: a packet whose receiver decodes to the orbiter account - under ANY spelling, the
    classification is by the decoded bytes - is never delegated and never panics; so it ends in the
